@@ -334,6 +334,8 @@ psRes_t psPkcs8ParsePrivBin(psPool_t *pool,
         if ((*p++ != ASN_OCTET_STRING) ||
             getAsnLength(&p, (int32) (end - p), &len) < 0 ||
             (uint32) (end - p) < len ||
+            /* psDes3Decrypt processes whole blocks only */
+            (len % DES3_BLOCKLEN) != 0 ||
 #   ifdef USE_ECC
             /* May actually be an RSA key, but this check will be OK for now */
             len < MIN_ECC_BITS / 8)
